@@ -219,8 +219,15 @@ class MappingStorage:
             # Step 2, GC.  A simple sweep+copy
             new_data = BTrees.OOBTree.OOBTree()
             to_copy = {ZODB.utils.z64}
+            # Objects written after the pack time are kept, like the
+            # transactions that wrote them.
+            for oid, tid_data in self._data.items():
+                if tid_data.maxKey() > stop:
+                    to_copy.add(oid)
             while to_copy:
                 oid = to_copy.pop()
+                if oid in new_data:
+                    continue
                 tid_data = self._data.pop(oid)
                 new_data[oid] = tid_data
                 for pickle in tid_data.values():
